@@ -262,6 +262,9 @@ class Exec:
         m = re.match(r"(\w+)\((.*)\)$", rv)  # newtype / tuple struct constructor
         if m and m.group(1)[0].isupper():
             return Val("struct", [self.operand(env, t, fn) for t in split_top(m.group(2))])
+        if rv.startswith("(") and rv.endswith(")") and not re.match(r"\(.*\.\d+: ", rv):
+            # tuple aggregate
+            return Val("tuple", [self.operand(env, t, fn) for t in split_top(rv[1:-1]) if t.strip()])
         m = re.match(r"(.*) as (\w+) \(IntToInt\)$", rv)
         if m:
             v = self.operand(env, m.group(1), fn)
@@ -283,6 +286,9 @@ class Exec:
         if m:
             x, y = deref(a[0]), deref(a[1])
             return BV(8, f"(ite (bvult {x.a[1]} {y.a[1]}) {bv(255,8)} (ite (= {x.a[1]} {y.a[1]}) {bv(0,8)} {bv(1,8)}))")
+        if callee == "core::cmp::Ordering::reverse":
+            x = a[0]
+            return BV(8, f"(bvneg {x.a[1]})")
         m = re.match(r"core::num::<impl (u\d+|usize)>::(\w+)$", callee)
         if m:
             w = INT_W[m.group(1)]
